@@ -258,6 +258,8 @@ def run(run):
     ppmflow(run, fx)
     units(run, fx)
     sameterms(run, fx)
+    from . import posexec
+    posexec.finalise_exec(run, fx, rules=('UNITS',), deep=getattr(run, 'tier', 'quick') != 'quick')      # Slot::finalise with symbolic floats: font run = scale x design-unit run
     fontuse(run, fx)
     from . import c09
     for f in [f for f in fx.fns_named('graphite2::Font::Font') if not f.f.get('implicit')]:
